@@ -1,0 +1,31 @@
+//! Constructors used only by the external verification harness.
+//!
+//! Compiled only with `--cfg ctap_types_verif`.  Two `#[non_exhaustive]` response member types
+//! cannot be built outside this crate (`Certifications` can otherwise only be obtained by
+//! decoding, `make_credential::UnsignedExtensionOutputs` not at all); the harness needs to build
+//! every member subset of every response by construction.
+
+#[cfg(feature = "get-info-full")]
+#[allow(clippy::too_many_arguments)]
+pub fn certifications(
+    fips_cmpv2: Option<u8>,
+    fips_cmpv3: Option<u8>,
+    fips_cmpv2_phy: Option<u8>,
+    fips_cmpv3_phy: Option<u8>,
+    cc_eal: Option<u8>,
+    fido: Option<u8>,
+) -> crate::ctap2::get_info::Certifications {
+    crate::ctap2::get_info::Certifications {
+        fips_cmpv2,
+        fips_cmpv3,
+        fips_cmpv2_phy,
+        fips_cmpv3_phy,
+        cc_eal,
+        fido,
+    }
+}
+
+pub fn make_credential_unsigned_extension_outputs(
+) -> crate::ctap2::make_credential::UnsignedExtensionOutputs {
+    crate::ctap2::make_credential::UnsignedExtensionOutputs {}
+}
